@@ -139,14 +139,14 @@ pub fn base_verdict(sc: &Scenario, rec: &RunRecord) -> Verdict {
     }
     for (i, o) in rec.outcomes.iter().enumerate() {
         if let crate::run::Outcome::Ok(sol) = o {
-            for x in &sc.solves[i].problem.soft {
+            for x in &sc.solves[i % sc.solves.len()].problem.soft {
                 if sol.contains(x) {
                     *v.probes.entry("soft_accepted").or_insert(0) += 1;
                 } else {
                     *v.probes.entry("soft_rejected").or_insert(0) += 1;
                 }
             }
-            for r in &sc.solves[i].problem.requirements {
+            for r in &sc.solves[i % sc.solves.len()].problem.requirements {
                 if let crate::world::Req::Union(_) = r {
                     let c = sc.world.req_cands(r);
                     if let Some(f) = c.first() {
